@@ -63,13 +63,19 @@ BODIES = [
     ("unary_binop", 1, ["return -call_next(x)[1] + (recurse(x - 1)[1] if x > 0 and isinstance(recurse(x - 1), tuple) else 0) * 2"]),
     ("nested_two", 2, ["if x > 0 and y > 0:", "    return recurse(x - 1, call_next(y - 1, x)[1])", "return call_next(x, y)"]),
     ("closure_two", 1, ["return (K - J, recurse(x - K)) if x >= K else call_next(x + J)"]),
+    ("kwonly_order", "kw", ["if x > 0:", "    return recurse(x - 1, b=tick(('b', x)), a=tick(('a', x)))", "return call_next(x, b=tick('nb'), a=tick('na'))"]),
+    ("recurse_and_self", 1, ["if x > 1:", "    return (recurse(x - 1), F(x - 2))", "return call_next(x)"]),
     ("two_pos_mixed", 2, ["if y > 0:", "    return recurse(x, y - 1)", "return call_next(y, x)"]),
 ]
 
 
 def module_for(name, npos, body, tier):
+    kwonly = npos == "kw"
+    if kwonly:
+        npos = 1
     params = "x: int" if npos == 1 else "x: int, y: int"
     argn = "x" if npos == 1 else "x, y"
+    KW = ", *, a=None, b=None" if kwonly else ""
     is_gen = any("yield" in ln for ln in body)
     closure = name.startswith("closure")
     dflt = name == "default_arg"
@@ -79,7 +85,7 @@ def module_for(name, npos, body, tier):
     L.append("from ovld.utils import UsageError")
     L.append("TICKS = []\n\ndef tick(v):\n    TICKS.append(v)\n    return v\n")
     L.append("DFLT = 3")
-    hdr = f"def A({params}" + (", *, scale=DFLT" if dflt else "") + "):"
+    hdr = f"def A({params}" + (", *, scale=DFLT" if dflt else "") + KW + "):"
     if closure:
         L.append("def _factory(K, J=7):\n    " + hdr + "\n" + "\n".join("        " + ln for ln in body) + "\n    return A\n\nA = _factory(2)\n")
     else:
@@ -87,9 +93,9 @@ def module_for(name, npos, body, tier):
     other = "x: int" if npos == 1 else "x: int, y: int"
     oth_o = "x: object" if npos == 1 else "x: object, y: object"
     oth_s = "x: str" if npos == 1 else "x: str, y: object"
-    L.append(f"def B({other}):\n    tick('B')\n    return ('B', x)\n")
-    L.append(f"def S({oth_s}):\n    tick('S')\n    if x == 'boom':\n        raise RuntimeError('boom')\n    return ('S', x)\n")
-    L.append(f"def C({oth_o}):\n    tick('C')\n    return ('C', x)\n")
+    L.append(f"def B({other}{KW}):\n    tick('B')\n    return ('B', x)\n")
+    L.append(f"def S({oth_s}{KW}):\n    tick('S')\n    if x == 'boom':\n        raise RuntimeError('boom')\n    return ('S', x)\n")
+    L.append(f"def C({oth_o}{KW}):\n    tick('C')\n    return ('C', x)\n")
     L.append("ACCEPT_ERROR = None\nOV = Ovld()\ntry:\n    OV.register(A, priority=1)\n    OV.register(B)\n    OV.register(S)\n    OV.register(C, priority=-1)\n"
              "    F = OV.dispatch\nexcept Exception as _e:\n    ACCEPT_ERROR = type(_e).__name__ + ': ' + str(_e)[:80]\n    F = None\n")
     # reference: the same source text, names bound to plain callables
@@ -99,8 +105,8 @@ def module_for(name, npos, body, tier):
         L.append("def REF(x, y):\n    if _isint(x) and _isint(y):\n        return A_ref(x, y)\n    if isinstance(x, str):\n        return S(x, y)\n    return C(x, y)\n")
         L.append("def NEXT_A(x, y):\n    if _isint(x) and _isint(y):\n        return B(x, y)\n    return REF(x, y)\n")
     else:
-        L.append("def REF(x):\n    if _isint(x):\n        return A_ref(x)\n    if isinstance(x, str):\n        return S(x)\n    return C(x)\n")
-        L.append("def NEXT_A(x):\n    if _isint(x):\n        return B(x)\n    return REF(x)\n")
+        L.append("def REF(x, **kw):\n    if _isint(x):\n        return A_ref(x, **kw)\n    if isinstance(x, str):\n        return S(x, **kw)\n    return C(x, **kw)\n")
+        L.append("def NEXT_A(x, **kw):\n    if _isint(x):\n        return B(x, **kw)\n    return REF(x, **kw)\n")
     L.append("_src = textwrap.dedent(inspect.getsource(A))\n_ns = dict(recurse=REF, call_next=NEXT_A, F=REF, tick=tick, DFLT=DFLT, K=2, J=7)\n"
              "exec(compile(_src, '<reference>', 'exec'), _ns)\nA_ref = _ns['A']\n")
     L.append('''
